@@ -65,6 +65,9 @@ type Recorder struct {
 	TokenKey any
 	// Gate, if set, is called before the result is produced (turnstile for controlled schedules).
 	Gate func(c *Call)
+	// Discard: calls are counted but not retained (long churn runs whose oracle never reads the calls).
+	Discard bool
+	nseq    int
 }
 
 func NewRecorder() *Recorder { return &Recorder{} }
@@ -154,8 +157,13 @@ func (r *Recorder) record(conn *redis.Conn, method string, pattern *glob.Glob, a
 		}
 	}
 	r.mu.Lock()
-	c.Seq = len(r.Calls)
-	r.Calls = append(r.Calls, c)
+	if r.Discard {
+		c.Seq = r.nseq
+		r.nseq++
+	} else {
+		c.Seq = len(r.Calls)
+		r.Calls = append(r.Calls, c)
+	}
 	fn := r.ResultFn
 	gate := r.Gate
 	r.mu.Unlock()
@@ -231,10 +239,12 @@ func (r *Recorder) record(conn *redis.Conn, method string, pattern *glob.Glob, a
 		}
 	}
 	r.mu.Lock()
-	if msg != nil {
-		r.Calls[c.Seq].Ret = res.Val
+	if !r.Discard {
+		if msg != nil {
+			r.Calls[c.Seq].Ret = res.Val
+		}
+		r.Calls[c.Seq].RetErr = res.Err
 	}
-	r.Calls[c.Seq].RetErr = res.Err
 	r.mu.Unlock()
 	return msg, err
 }
